@@ -172,7 +172,13 @@ def mode_state(req):
     out = {"wheel_version": mujoco.__version__, "wheel_enum": wheel_enum(), "mjx_file": mjx.__file__,
            "dims": [M.dims for M in models], "cases": [], "err": []}
     for c in req["cases"]:
-        out["cases"].append(run_case(models[c["mid"]], c["sig"], c["seed"], c.get("full", False), c.get("jaxvec", False)))
+        try:
+            out["cases"].append(run_case(models[c["mid"]], c["sig"], c["seed"], c.get("full", False), c.get("jaxvec", False)))
+        except Exception as e:       # a valid signature must not raise: reported as law 128
+            r = {"laws": 128, "size": -1, "hash": 0, "exc": "%s: %s" % (type(e).__name__, str(e)[:200])}
+            if c.get("full"):
+                r["vecs"] = []
+            out["cases"].append(r)
     for mid, sig, extra in req["err"]:
         out["err"].append(run_err(models[mid], sig, extra))
     return out
